@@ -296,9 +296,21 @@ func Solve(frs []*FuncResult, dir string, timeoutS int, keepDir string) {
 		}(fr)
 	}
 	wg.Wait()
-	// second chance for obligations that no solver decided: longer budget, one at a time per function (less contention)
+	// second chance for obligations that no solver decided: longer budget, a few at a time (less contention).
+	// Only when few are left: a function with many open obligations has a real problem, more time will not help.
 	var wg3 sync.WaitGroup
+	open := 0
 	for _, fr := range frs {
+		for _, o := range fr.Obls {
+			if o.Verdict != "proved" && o.Verdict != "refuted" && !o.NoRetry {
+				open++
+			}
+		}
+	}
+	for _, fr := range frs {
+		if open > 12 {
+			break
+		}
 		for _, o := range fr.Obls {
 			if o.Verdict == "proved" || o.Verdict == "refuted" || o.NoRetry {
 				continue
@@ -309,7 +321,7 @@ func Solve(frs []*FuncResult, dir string, timeoutS int, keepDir string) {
 				retrySem <- struct{}{}
 				defer func() { <-retrySem }()
 				prev := *o
-				raceOne(fr, o, dir, timeoutS*4, keepDir)
+				raceOne(fr, o, dir, timeoutS*3, keepDir)
 				if o.Verdict != "proved" && o.Verdict != "refuted" && prev.Verdict == "candidate" && o.Verdict != "candidate" {
 					*o = prev
 				}
